@@ -3,7 +3,8 @@ TEXT = {
     'C17': dict(
         text=('Unbounded proof: icao.significant_cloud is symbolically executed from its real AST for okta lists of arbitrary '
               'symbolic length; the loop is cut by an inductive invariant; the postcondition is the 1-3-5 rule at every position and one '
-              'flag per layer; prefix independence is a lemma by induction. All obligations must be discharged by z3 on every run.'),
+              'flag per layer; prefix independence is a lemma by induction. All obligations must be discharged by z3 on every run.  A bounded '
+              'native companion (all sequences up to length 4 / 6 against an independent statement of the rule) supplies failing inputs.'),
         design_ref='DESIGN.md section 4 (C17)',
         note=('Trusted: pyvc VC generator (cross-checked against CPython on seeded inputs every run, canaries must be refuted), z3; '
               'okta values are ints; Python list semantics of += and count as modelled.'),
@@ -11,7 +12,8 @@ TEXT = {
     'C18': dict(
         text=('Proof under floats-as-reals: the three WMO conversions are symbolically executed from their real ASTs over all entry '
               'types; results are proved equal to spec functions taken from the property text; the (n, m), monotonicity, floor and '
-              'three-digit statements are lemmas over those spec functions discharged by z3.'),
+              'three-digit statements are lemmas over those spec functions discharged by z3.  A bounded native companion (all n/m up to '
+              'm = 400 / 3000 in exact arithmetic, integers -12..12, boundary neighbours of the height code) supplies failing inputs.'),
         design_ref='DESIGN.md section 4 (C18)',
         note=('Trusted: pyvc, z3, assumed contracts of np.floor/ceil/round/isnan/all/full_like/array and masked assignment; machine floats '
               'treated as reals + NaN (A-REAL) except two standard-model rounding lemmas (A-FP).'),
@@ -21,15 +23,17 @@ TEXT['C01'] = dict(
     text=('Unbounded proof over all tables satisfying the table invariant: metar_msg is symbolically executed from its real AST (all '
           'three levels, MSA None or real, table missing); grammar, 1-3-5 thresholds of the groups, height order, no zero-okta group and '
           'no group at/above the MSA are postconditions discharged by z3; the functions that establish the invariant pieces '
-          '(significant_cloud, okta2code, height2code) are verified in the same check.'),
+          '(significant_cloud, okta2code, height2code) and the table itself (metarize and its four helpers) are verified in the same check.  '
+          'A bounded native companion compares the message of real runs with an independent reading of the listed sets.'),
     design_ref='DESIGN.md section 4 (C01)',
     note=('Trusted: pyvc, z3 (strings/regex), assumed pandas contracts for column access, bool-Series product, comparison, mask '
-          'filtering, to_list, any, str.join; floats as reals; TI assumed at entry of metar_msg and proved as metarize postcondition '
-          'only for the clauses listed in the evidence.'),
+          'filtering, to_list, any, str.join; floats as reals; TI assumed at entry of metar_msg and proved as the postcondition of metarize; '
+          'n_<which> / _get_cluster_ids assumed at call sites.'),
     technique='contract-based deductive verification: postconditions over a table invariant, VCs from the real AST, z3')
 TEXT['C02'] = dict(
     text=('Unbounded proof: message characterisation postconditions of metar_msg (from its real AST) plus inductive lemmas over the '
-          'table invariant that turn them into the property statements about okta (lowest layer first, ceiling kept, NCD/NSC exact).'),
+          'table invariant that turn them into the property statements about okta (lowest layer first, ceiling kept, NCD/NSC exact); the '
+          'meaning of the high-cloud flag is the postcondition of _cleanup_pdf, verified in the same check.  Bounded native companion as C01.'),
     design_ref='DESIGN.md section 4 (C02)',
     note='Trusted: as C01; the induction principle over table rows (base + step obligations) is the meta-rule of the lemma objects.',
     technique='contract-based deductive verification: postconditions + inductive lemmas over contracts, z3')
